@@ -5,7 +5,7 @@
   * AnonymousStructsToNamed is the identity on `PlainN`;
   * NotRequiredFieldAsNullableType keeps `PlainN` (its widening step is `nr_widenN`, WidenOpt.lean);
   * DisjunctionWithNullToOptional: exact result `nullOptS` (the pair becomes the nullable `T`), the
-    output is `Plain`, and `xden false` is preserved with ONE more unit of fuel (the removed
+    output is `PlainE` (no disjunction left), and `xden false` is preserved with ONE more unit of fuel (the removed
     disjunction node consumed one; `xden_mono`).
 -/
 import Cog.Sem.WidenDen
@@ -58,7 +58,7 @@ theorem ASN_processType_nr (pkg parent : String) (acc : List Obj) : ∀ t : Ty, 
     simp [AnonymousStructsToNamed.processType, ASN_processList_id pkg parent bs acc (nullPair_branches h)]
   | .cref .., h => by simp [nrTy] at h
   | .struct .., h => by simp [nrTy] at h
-  | .enum .., h => by simp [nrTy] at h
+  | .enum .., _ => by simp [AnonymousStructsToNamed.processType]
   | .inter .., h => by simp [nrTy] at h
   | .slot .., h => by simp [nrTy] at h
   | .bad .., h => by simp [nrTy] at h
@@ -216,7 +216,7 @@ theorem DWN_dvTy_nr : ∀ t : Ty, nrTy t = true → dvTy DisjunctionWithNullToOp
     simp [dvTy, DisjunctionWithNullToOptional.hook, nullOpt, ht, hnn, hc.1, hc.2]
   | .cref .., h => by simp [nrTy] at h
   | .struct .., h => by simp [nrTy] at h
-  | .enum .., h => by simp [nrTy] at h
+  | .enum .., _ => by simp [dvTy, nullOpt]
   | .inter .., h => by simp [nrTy] at h
   | .slot .., h => by simp [nrTy] at h
   | .bad .., h => by simp [nrTy] at h
@@ -275,56 +275,66 @@ theorem DisjunctionWithNullToOptional_run (S : Schemas) (h : PlainN S = true) :
       (fun ko hk => DWN_dvTy_nrObj _ (nrSchema_obj hp hk)))
   simpa [DisjunctionWithNullToOptional.run, runDisjPass, nullOptS, mapSchemas] using this
 
-/-! ### the output is plain -/
+/-! ### the output has no disjunction left (`PlainE`: plain types and anonymous enums) -/
 
-theorem nullOpt_nr_plain : ∀ t : Ty, nrTy t = true → plainTy (nullOpt t) = true
+theorem plain_pe : ∀ t : Ty, plainTy t = true → peTy t = true
   | .scalar .., _ => rfl
   | .ref .., _ => rfl
-  | .array e m, h => by simp only [nrTy] at h; simpa [nullOpt, plainTy] using nullOpt_nr_plain e h
+  | .array e m, h => by simp only [plainTy] at h; simpa [peTy] using plain_pe e h
+  | .map i v m, h => by
+    simp only [plainTy, Bool.and_eq_true] at h
+    simp only [peTy, Bool.and_eq_true]; exact ⟨h.1, plain_pe v h.2⟩
+  | .cref .., h => by simp [plainTy] at h
+  | .struct .., h => by simp [plainTy] at h
+  | .enum .., h => by simp [plainTy] at h
+  | .disj .., h => by simp [plainTy] at h
+  | .inter .., h => by simp [plainTy] at h
+  | .slot .., h => by simp [plainTy] at h
+  | .bad .., h => by simp [plainTy] at h
+
+theorem nullOpt_nr_pe : ∀ t : Ty, nrTy t = true → peTy (nullOpt t) = true
+  | .scalar .., _ => rfl
+  | .ref .., _ => rfl
+  | .array e m, h => by simp only [nrTy] at h; simpa [nullOpt, peTy] using nullOpt_nr_pe e h
   | .map i v m, h => by
     simp only [nrTy, Bool.and_eq_true] at h
-    simp only [nullOpt, plainTy, Bool.and_eq_true]
-    exact ⟨h.1, nullOpt_nr_plain v h.2⟩
+    simp only [nullOpt, peTy, Bool.and_eq_true]
+    exact ⟨h.1, nullOpt_nr_pe v h.2⟩
   | .disj bs info m, h => by
     simp only [nrTy] at h
     obtain ⟨t, ht, hpt⟩ := nullPair_spec h
-    simp only [nullOpt, ht, plainTy_setNullable]
-    exact hpt
+    simp only [nullOpt, ht]
+    exact plain_pe _ (by rw [plainTy_setNullable]; exact hpt)
+  | .enum vs m, h => by cases vs with
+    | nil => simp [nrTy] at h
+    | cons v0 rest => rfl
   | .cref .., h => by simp [nrTy] at h
   | .struct .., h => by simp [nrTy] at h
-  | .enum .., h => by simp [nrTy] at h
   | .inter .., h => by simp [nrTy] at h
   | .slot .., h => by simp [nrTy] at h
   | .bad .., h => by simp [nrTy] at h
 
-theorem nullOptO_nr_plain (t : Ty) (h : nrObjTy t = true) : plainObjTy (nullOptO t) = true := by
+theorem pe_peObj (u : Ty) (hu : peTy u = true) : peObjTy u = true := by
+  cases u with
+  | enum vs m => rfl
+  | scalar _ _ _ _ | ref _ _ _ | array _ _ | map _ _ _ => simpa [peObjTy] using hu
+  | cref _ _ _ _ | struct _ _ _ _ | disj _ _ _ | inter _ _ | slot _ _ | bad _ _ => simp [peTy] at hu
+
+theorem nullOptO_nr_pe (t : Ty) (h : nrObjTy t = true) : peObjTy (nullOptO t) = true := by
   cases t with
   | struct fs g gi m =>
     cases gi with
     | none =>
       simp only [nrObjTy, List.all_eq_true] at h
-      simp only [nullOptO, plainObjTy, List.all_map, List.all_eq_true]
-      exact fun f hf => nullOpt_nr_plain _ (h f hf)
+      simp only [nullOptO, peObjTy, List.all_map, List.all_eq_true]
+      exact fun f hf => nullOpt_nr_pe _ (h f hf)
     | some x => simp [nrObjTy] at h
   | enum vs m => rfl
   | scalar k v c m => rfl
   | ref p n m => rfl
-  | array e m =>
-    have := nullOpt_nr_plain (.array e m) (by simpa [nrObjTy] using h)
-    simpa [nullOptO, nullOpt, plainObjTy, plainTy] using this
-  | map i v m =>
-    have := nullOpt_nr_plain (.map i v m) (by simpa [nrObjTy] using h)
-    simpa [nullOptO, nullOpt, plainObjTy, plainTy] using this
-  | disj bs info m =>
-    have hn : nrTy (.disj bs info m) = true := by simpa [nrObjTy] using h
-    have := nullOpt_nr_plain _ hn
-    simp only [nrTy] at hn
-    obtain ⟨t, ht, hpt⟩ := nullPair_spec hn
-    simp only [nullOptO, nullOpt, ht] at this ⊢
-    -- a nullable plain type is a plain object type
-    have hpo : ∀ u : Ty, plainTy u = true → plainObjTy u = true := by
-      intro u hu; cases u <;> simp [plainTy] at hu <;> simp [plainObjTy, plainTy, hu]
-    exact hpo _ this
+  | array e m => exact pe_peObj _ (nullOpt_nr_pe (.array e m) (by simpa [nrObjTy] using h))
+  | map i v m => exact pe_peObj _ (nullOpt_nr_pe (.map i v m) (by simpa [nrObjTy] using h))
+  | disj bs info m => exact pe_peObj _ (nullOpt_nr_pe (.disj bs info m) (by simpa [nrObjTy] using h))
   | cref _ _ _ _ => simp [nrObjTy, nrTy] at h
   | inter _ _ => simp [nrObjTy, nrTy] at h
   | slot _ _ => simp [nrObjTy, nrTy] at h
@@ -348,15 +358,15 @@ theorem nullOptO_ept (t : Ty) (h : plainEpt t = true) : plainEpt (nullOptO t) = 
   | inter _ _ => simp [plainEpt, plainTy] at h
   | slot _ _ => simp [plainEpt, plainTy] at h
 
-theorem nullOptS_Plain (S : Schemas) (h : PlainN S = true) : Plain (nullOptS S) = true := by
-  simp only [PlainN, Plain, nullOptS, mapSchemas, List.all_map, List.all_eq_true] at h ⊢
+theorem nullOptS_PlainE (S : Schemas) (h : PlainN S = true) : PlainE (nullOptS S) = true := by
+  simp only [PlainN, PlainE, nullOptS, mapSchemas, List.all_map, List.all_eq_true] at h ⊢
   intro s hs
   have hp := h s hs
-  simp only [Function.comp, nrSchema, plainSchema, mapSchema, Bool.and_eq_true] at hp ⊢
+  simp only [Function.comp, nrSchema, peSchema, mapSchema, Bool.and_eq_true] at hp ⊢
   refine ⟨⟨wfObjects_mapObjects' (setTy nullOptO) (fun _ => rfl) _ hp.1.1, nullOptO_ept _ hp.1.2⟩, ?_⟩
   simp only [mapObjects', List.all_map, List.all_eq_true] at hp ⊢
   intro ko hk
-  exact nullOptO_nr_plain _ (hp.2 ko hk)
+  exact nullOptO_nr_pe _ (hp.2 ko hk)
 
 /-! ### `xden false` through the pass (one more unit of fuel) -/
 
@@ -368,8 +378,8 @@ theorem isCollLike_nullOpt (t : Ty) (h : nrTy t = true) : isCollLike (nullOpt t)
     obtain ⟨hc, hnn⟩ := nullPairOf_spec hu
     simp only [nullOpt, hu, isCollLike, hc, hnn, Bool.true_and]
     cases u <;> simp [plainTy] at hpu <;> rfl
-  | scalar _ _ _ _ | ref _ _ _ | array _ _ | map _ _ _ => rfl
-  | cref _ _ _ _ | struct _ _ _ _ | enum _ _ | inter _ _ | slot _ _ | bad _ _ => simp [nrTy] at h
+  | scalar _ _ _ _ | ref _ _ _ | array _ _ | map _ _ _ | enum _ _ => rfl
+  | cref _ _ _ _ | struct _ _ _ _ | inter _ _ | slot _ _ | bad _ _ => simp [nrTy] at h
 
 theorem shape_nullOpt (t : Ty) (h : nrTy t = true) (hs : (t.getMeta.nullable || isCollOrAny t) = true) :
     ((nullOpt t).getMeta.nullable || isCollOrAny (nullOpt t)) = true := by
@@ -378,8 +388,8 @@ theorem shape_nullOpt (t : Ty) (h : nrTy t = true) (hs : (t.getMeta.nullable || 
     simp only [nrTy] at h
     obtain ⟨u, hu, _⟩ := nullPair_spec h
     simp [nullOpt, hu, getMeta_setNullable]
-  | scalar _ _ _ _ | ref _ _ _ | array _ _ | map _ _ _ => simpa [nullOpt, isCollOrAny, Ty.getMeta] using hs
-  | cref _ _ _ _ | struct _ _ _ _ | enum _ _ | inter _ _ | slot _ _ | bad _ _ => simp [nrTy] at h
+  | scalar _ _ _ _ | ref _ _ _ | array _ _ | map _ _ _ | enum _ _ => simpa [nullOpt, isCollOrAny, Ty.getMeta] using hs
+  | cref _ _ _ _ | struct _ _ _ _ | inter _ _ | slot _ _ | bad _ _ => simp [nrTy] at h
 
 theorem isByteElem_setNullable_true (u : Ty) : isByteElem (setNullable true u) = false := by
   cases u with
@@ -398,8 +408,8 @@ theorem isByteElem_nullOpt (e : Ty) (hp : nrTy e = true) : isByteElem (nullOpt e
     obtain ⟨u, hu, _⟩ := nullPair_spec hp
     simp only [nullOpt, hu, isByteElem_setNullable_true]
     rfl
-  | scalar _ _ _ _ | ref _ _ _ | array _ _ | map _ _ _ => rfl
-  | cref _ _ _ _ | struct _ _ _ _ | enum _ _ | inter _ _ | slot _ _ | bad _ _ => simp [nrTy] at hp
+  | scalar _ _ _ _ | ref _ _ _ | array _ _ | map _ _ _ | enum _ _ => rfl
+  | cref _ _ _ _ | struct _ _ _ _ | inter _ _ | slot _ _ | bad _ _ => simp [nrTy] at hp
 
 theorem null_fields (d d' : Ty → Json → Bool)
     (himp : ∀ t j, nrTy t = true → d t j = true → d' (nullOpt t) j = true)
@@ -550,7 +560,10 @@ theorem null_widen (S : Schemas) (hP : PlainN S = true) : ∀ n t j, nrTy t = tr
         | bad _ _ => simp [hty] at h
     | cref _ _ _ _ => simp [nrTy] at hp
     | struct _ _ _ _ => simp [nrTy] at hp
-    | enum _ _ => simp [nrTy] at hp
+    | enum vals em =>
+      cases vals with
+      | nil => simp [nrTy] at hp
+      | cons v0 rest => simpa [xden, nullOpt] using h
     | inter _ _ => simp [nrTy] at hp
     | slot _ _ => simp [nrTy] at hp
     | bad _ _ => simp [nrTy] at hp
